@@ -145,6 +145,28 @@ def run(chk):
                            'meaning': ('verifier verdict differs from the well-formedness specification' if cd >= 2 else
                                        'model differs from implementation although the specification is met (tie B broken)')},
                           no_input=(cd == 1))
+        # programs at the size limit, too long to spell out or to evaluate in Coq (the theorem covers them; this is the search for a
+        # concrete input when it breaks): prefix ++ MOV * count ++ suffix, verdict expected by the property's own wording
+        M = 1000000
+        long_cases = [
+            (b'', M - 2, EXIT, 'OK', '999,999 instructions ending in exit'),
+            (b'', M - 1, EXIT, 'OK', 'exactly 1,000,000 instructions ending in exit'),
+            (b'', M - 1, slot(0x05, 0, -3), 'OK', 'exactly 1,000,000 instructions ending in a backward ja'),
+            (b'', M, EXIT, 'ERR', '1,000,001 instructions'),
+            (b'', M - 1, EXIT + b'\0\0\0\0', 'ERR', '1,000,000 instructions and 4 stray bytes'),
+            (b'', M - 1, MOV, 'ERR', '1,000,000 instructions not ending in exit / ja'),
+            (slot(0x85, 0x10, 0, M - 2) + EXIT, M - 3, EXIT, 'OK', 'local call to the last of 1,000,000 instructions'),
+            (slot(0x85, 0x10, 0, M - 1) + EXIT, M - 3, EXIT, 'ERR', 'local call just past the last of 1,000,000 instructions'),
+            (slot(0x85, 0x10, 0, M - 3) + EXIT, M - 4, EXIT, 'OK', 'local call to the last of 999,999 instructions'),
+        ]
+        long_lines = ['verifyrep %s %s %d %s' % (pre.hex() or '-', MOV.hex(), cnt, suf.hex()) for pre, cnt, suf, _, _ in long_cases]
+        for (pre, cnt, suf, want, what), line, a in zip(long_cases, long_lines, vlib.harness_run(binary, long_lines)):
+            if a.split()[0] != want:
+                found = True
+                chk.violation({'kind': 'counterexample', 'request': line, 'implementation_answer': a[:200], 'expected': want, 'family': 'size-limit',
+                               'meaning': 'verifier verdict differs from the well-formedness specification at the 1,000,000-instruction limit: ' + what})
+        chk.cov['evaluations'] += len(long_cases)
+        chk.cov['input_distribution']['families']['size-limit'] = len(long_cases)
     vlib.report_broken(chk, res, found)
     chk.cov['trusted_base'] = ['Coq 8.16.1 kernel + vm_compute', 'no axioms',
                                'translator tools/rs2v (units Verifier, Codec, Opcodes: whole of verifier.rs is regenerated)',
